@@ -15,6 +15,8 @@ def conf_for(token):
         'default': BeartypeConf(),
         'pep526off': BeartypeConf(claw_is_pep526=False),
         'place_first': BeartypeConf(claw_decor_place_func=BeartypeDecorPlace.FIRST, claw_decor_place_type=BeartypeDecorPlace.FIRST),
+        'type_first': BeartypeConf(claw_decor_place_type=BeartypeDecorPlace.FIRST),
+        'func_first': BeartypeConf(claw_decor_place_func=BeartypeDecorPlace.FIRST),
         'viol_warn': BeartypeConf(violation_type=UserWarning),
         'viol_value': BeartypeConf(violation_type=ValueError),
     }[token]
@@ -49,6 +51,7 @@ def fingerprint():
         fp['a.K().m(1)'] = probe(lambda: a.K().m(1))
         fp["a.K().m('s')"] = probe(lambda: a.K().m('s'))
         fp['a.decorated'] = probe(lambda: a.deco_f('s'))
+        fp["a.P('s')"] = probe(lambda: a.P('s'))
     c = sys.modules.get('c16pkg.sub.mod_c')
     if c is not None and hasattr(c, 'h'):
         fp["c.h('s')"] = probe(lambda: c.h('s'))
@@ -88,7 +91,8 @@ def threads(arg):
     importlib.import_module('c16pkg')
     importlib.import_module('c16warm')
     prefix = os.path.dirname(beartype.__file__) + os.sep
-    s = sched.Scheduler(2, arg['schedule'], prefix, (), step_timeout=20.0)
+    import _imp
+    s = sched.Scheduler(2, arg['schedule'], prefix, (), step_timeout=20.0, defer=_imp.lock_held)
 
     def hooked():
         importlib.import_module('c16pkg.mod_a')
